@@ -11,7 +11,7 @@ TOL = 1e-7
 
 
 def h_promotion(sym, typ="promotion", mode="min", T=3, E=8, W=2, max_t=4, grace=1, rf=2, ckpt=True,
-                max_resource_attr=True, concrete_metrics=False, explicit=None, B=1):
+                max_resource_attr=True, concrete_metrics=False, explicit=None, B=1, table="mod5"):
     from syne_tune.optimizer.schedulers.hyperband import HyperbandScheduler
     from syne_tune.config_space import uniform
 
@@ -169,7 +169,9 @@ def h_promotion(sym, typ="promotion", mode="min", T=3, E=8, W=2, max_t=4, grace=
         tid = running[cc]
         level[tid] += 1
         r = level[tid]
-        if concrete_metrics:
+        if concrete_metrics and table == "improving":
+            v = 10.0 - tid - 0.25 * r           # every new trial is better than all earlier ones, at every level
+        elif concrete_metrics:
             v = float((tid * 7 + r * 3) % 5) + 0.1 * tid
         else:
             v = sym.real("m_%d_%d_%d" % (tid, r, step), -100, 100)
@@ -179,9 +181,26 @@ def h_promotion(sym, typ="promotion", mode="min", T=3, E=8, W=2, max_t=4, grace=
             run_cost[tid] = run_cost[tid] + ci
             total_cost[tid] = total_cost[tid] + ci
             res["c"] = run_cost[tid]
+        cap_before = sch.terminator._rung_systems[0].current_max_t if typ == "pasha" else None
         d = sch.on_trial_result(trials[tid], res)
         sym.event("t%d r=%d -> %s" % (tid, r, d))
         sym.check(r <= max_t, "C04.beyond-max-resource", "")
+        if typ == "pasha":
+            # PASHA (documented): the resource cap grows only when the ranking of the trials in the top rung DISAGREES with
+            # their ranking in the rung below (soft ranking can only make it grow less often).  Reference, independent of the
+            # scheduler's own bookkeeping: a pair of trials present in both rungs whose order differs, or a tie.
+            cap_after = sch.terminator._rung_systems[0].current_max_t
+            if cap_after > cap_before and cap_before in levels and levels.index(cap_before) >= 1:
+                top = dict((t, e[0]) for t, e in rung[cap_before].items())
+                if r == cap_before:
+                    top[tid] = v
+                prev = dict((t, e[0]) for t, e in rung[levels[levels.index(cap_before) - 1]].items())
+                both = [t for t in top if t in prev]
+                disagree = any((top[a] - top[b]) * (prev[a] - prev[b]) <= 0 for i, a in enumerate(both) for b in both[i + 1:])
+                sym.check(disagree, "C04.pasha-cap-grew-without-ranking-change",
+                          "cap %s -> %s although the %d trial(s) recorded at level %s are ranked exactly as at the level below (%s vs %s)" % (
+                              cap_before, cap_after, len(both), cap_before, top, {t: prev[t] for t in both}))
+                sym.goal("pasha-cap-grew")
         if r == target[tid]:
             sym.check(d == ("STOP" if r >= max_t else "PAUSE"), "C04.no-pause-at-milestone", "trial %d at its milestone %d: %s" % (tid, r, d))
             if r in rung:
@@ -224,6 +243,7 @@ def obligations(tier):
         # three brackets sharing the rung system (levels 1,2,4, max_t 8): a promotion goes one rung up whatever bracket was drawn
         ("promotion,min,B=3,max_t=8", dict(typ="promotion", mode="min", ckpt=True, B=3, max_t=8, E=7)),
         ("pasha,min", dict(typ="pasha", mode="min", ckpt=True, concrete_metrics=True, T=4, E=12, max_t=8)),
+        ("pasha,min,improving-table,T=5", dict(typ="pasha", mode="min", ckpt=True, concrete_metrics=True, table="improving", T=5, E=13, max_t=8)),
     ]
     for name, c in cfgs:
         p = dict(dict(T=3, E=E, W=2), **c)
